@@ -109,6 +109,8 @@ type Machine struct {
 	payloads   []payloadRec
 	forceExact bool
 	splitMemo  []splitMemo
+	sigChecks  []sigCheck
+	realise    []*Term // constraints wanted of a counterexample model only (make it replay), never needed for soundness
 	ufArgs     map[string][]*Term // UF predicates applied on this path (validbech32_acc, validdec, ...)
 }
 
